@@ -16,7 +16,7 @@ from vlib.statgen import close
 ID = 'C05'
 LEVEL = 'exploration'
 RULE = ('case = reference dataset + 1-3 compared datasets of one shape (() to 3-D, 1-5 cells per '
-        'dimension, shared edge/centre bins or none), alpha in (0,1) (log-uniform 1e-8..0.5, uniform '
+        'dimension, shared edge/centre bins or none), alpha in (0,1) (log-uniform 1e-8..0.5 and, less often, 1e-100..1e-8, uniform '
         '0.001..0.999, usual levels), ndf None or an integer in [1, 1e6]; every bin of every compared '
         'dataset is built by one of: value placed at u*c*q from the reference value (u below, around '
         'or above 1, c the critical value, q the quadratic sum of the errors), value equal to the '
@@ -80,7 +80,7 @@ def _case(draw):
     kinds = statgen.kinds_for(draw, shape)
     size = statgen.size_of(shape)
     nds = draw(st.sampled_from([1, 1, 2, 3]))
-    alpha = draw(statgen.alphas())
+    alpha = draw(statgen.alphas(tiny=True))
     ndf = draw(_ndfs())
     crit = dist.crit(alpha, ndf)
     special = draw(st.sampled_from([0, 0, 25, 90]))      # per mille of NaN / inf
